@@ -214,7 +214,129 @@ impl ChildHandle {
 
 // ---------------------------------------------------------------- a case
 
+/// (length, FNV-1a hash) of a file; (0, 0) if it does not exist
+fn fingerprint(p: &Path) -> (u64, u64) {
+    match std::fs::read(p) {
+        Ok(b) => {
+            let mut h: u64 = 0xcbf29ce484222325;
+            for x in &b {
+                h = (h ^ *x as u64).wrapping_mul(0x100000001b3);
+            }
+            (b.len() as u64, h)
+        }
+        Err(_) => (0, 0),
+    }
+}
+fn db_files(path: &Path) -> [PathBuf; 2] {
+    [path.with_extension("ndb"), path.with_extension("wal")]
+}
+
+/// A holder commits continuously (many multi-record transactions) while threads of this process and a child
+/// process keep asking for another handle on the same path.  Every request must be refused, and after close +
+/// reopen every acknowledged commit must be there.
+fn hammer_stream(txs: usize, per_tx: usize) -> (Result<(), String>, u64) {
+    use std::sync::atomic::{AtomicBool, AtomicU64, Ordering};
+    use std::sync::Arc;
+    let dir = if Path::new("/dev/shm").is_dir() { tempfile::tempdir_in("/dev/shm").unwrap() } else { tempfile::tempdir().unwrap() };
+    let path = dir.path().join("c10stream");
+    let holder = match Db::open(&path) {
+        Ok(d) => d,
+        Err(e) => return (Err(format!("stream: open: {}", e)), 0),
+    };
+    let stop = Arc::new(AtomicBool::new(false));
+    let refused = Arc::new(AtomicU64::new(0));
+    let granted = Arc::new(AtomicU64::new(0));
+    let mut openers = vec![];
+    for _ in 0..3 {
+        let (p, stop, refused, granted) = (path.clone(), stop.clone(), refused.clone(), granted.clone());
+        openers.push(std::thread::spawn(move || {
+            while !stop.load(Ordering::SeqCst) {
+                match Db::open(&p) {
+                    Ok(_) => granted.fetch_add(1, Ordering::SeqCst),
+                    Err(_) => refused.fetch_add(1, Ordering::SeqCst),
+                };
+            }
+        }));
+    }
+    let exe = std::env::current_exe().unwrap();
+    let mut child = Command::new(exe).arg("--hammer").arg(&path).stdin(Stdio::piped()).stdout(Stdio::piped()).stderr(Stdio::null()).spawn().unwrap();
+    let mut acked = 0usize;
+    let mut err = None;
+    let res = vh::catch(std::panic::AssertUnwindSafe(|| -> Result<(), String> {
+        let mut tx = holder.begin_write();
+        let l = tx.get_or_create_label("N").map_err(|e| e.to_string())?;
+        for k in 0..=per_tx {
+            tx.create_node(1 + k as u64, l).map_err(|e| e.to_string())?;
+        }
+        tx.commit().map_err(|e| e.to_string())?;
+        for t in 0..txs {
+            let mut tx = holder.begin_write();
+            let rel = tx.get_or_create_rel_type(&format!("R{}", t)).map_err(|e| e.to_string())?;
+            for k in 0..per_tx {
+                tx.create_edge(0, rel, 1 + k as u32);
+            }
+            tx.commit().map_err(|e| format!("commit {}: {}", t, e))?;
+            acked += 1;
+        }
+        Ok(())
+    }));
+    match res {
+        Ok(Ok(())) => {}
+        Ok(Err(e)) => err = Some(format!("stream: the holder's commit failed although every other open was refused: {}", e)),
+        Err(p) => err = Some(format!("stream: the holder panicked: {}", p)),
+    }
+    stop.store(true, Ordering::SeqCst);
+    for o in openers {
+        let _ = o.join();
+    }
+    drop(child.stdin.take());
+    let mut line = String::new();
+    let _ = BufReader::new(child.stdout.take().unwrap()).read_line(&mut line);
+    let _ = child.wait();
+    let child_counts: Vec<u64> = line.split_whitespace().filter_map(|x| x.parse().ok()).collect();
+    let (c_granted, c_refused) = (child_counts.first().copied().unwrap_or(0), child_counts.get(1).copied().unwrap_or(0));
+    let total_refused = refused.load(Ordering::SeqCst) + c_refused;
+    if err.is_none() && granted.load(Ordering::SeqCst) + c_granted > 0 {
+        err = Some(format!("stream: {} open requests were GRANTED while the holder had the database open", granted.load(Ordering::SeqCst) + c_granted));
+    }
+    let _ = holder.close();
+    if err.is_none() {
+        match vh::catch(std::panic::AssertUnwindSafe(|| -> Result<usize, String> {
+            let db = Db::open(&path).map_err(|e| e.to_string())?;
+            let snap = db.snapshot();
+            Ok(snap.neighbors(0, None).count())
+        })) {
+            Ok(Ok(n)) if n == acked * per_tx => {}
+            Ok(Ok(n)) => err = Some(format!("stream: {} of {} acknowledged relationships are gone after close + reopen; besides the holder's commits there were only {} REFUSED open requests", acked * per_tx - n.min(acked * per_tx), acked * per_tx, total_refused)),
+            Ok(Err(e)) => err = Some(format!("stream: the database does not reopen after {} acknowledged commits and {} REFUSED open requests: {}", acked, total_refused, e)),
+            Err(p) => err = Some(format!("stream: reading after reopen panicked: {}", p)),
+        }
+    }
+    (err.map_or(Ok(()), Err), total_refused)
+}
+
+/// child process of the stream: ask for a handle until stdin is closed; prints "granted refused"
+fn hammer_main(path: &Path) {
+    use std::io::Read;
+    let stop = std::sync::Arc::new(std::sync::atomic::AtomicBool::new(false));
+    let s2 = stop.clone();
+    std::thread::spawn(move || {
+        let mut b = [0u8; 1];
+        let _ = std::io::stdin().read(&mut b); // returns at EOF
+        s2.store(true, std::sync::atomic::Ordering::SeqCst);
+    });
+    let (mut g, mut r) = (0u64, 0u64);
+    while !stop.load(std::sync::atomic::Ordering::SeqCst) {
+        match Db::open(path) {
+            Ok(_) => g += 1,
+            Err(_) => r += 1,
+        }
+    }
+    println!("{} {}", g, r);
+}
+
 struct Outcome {
+    touched: Vec<String>,
     results: Vec<(usize, Res)>,
     open_at_end: Vec<bool>,
     max_open: usize,
@@ -235,13 +357,39 @@ fn run_case(progs: &[Vec<Op>], sched: &[usize], with_child: bool) -> Outcome {
     let mut results = vec![];
     let mut max_open = 0;
     let mut expected = BTreeSet::new();
+    let mut touched: Vec<String> = vec![];
     for &t in sched {
         if t >= n || pc[t] >= progs[t].len() {
             continue;
         }
         let op = &progs[t][pc[t]];
         pc[t] += 1;
+        // A live handle of somebody else is idle right now.  Simulate a log record it is in the middle of
+        // appending (a frame header without its body at the end of the .wal) and look at the files around an
+        // open / offline-tool request of ANOTHER handle: the request must be refused and must not touch them.
+        let others_open = is_open.iter().enumerate().any(|(u, b)| *b && u != t);
+        let probe = others_open && matches!(op, Op::Open | Op::Offline) && !is_open[t];
+        let files = db_files(&path);
+        let mut before = vec![];
+        let mut wal_len = 0u64;
+        if probe {
+            wal_len = std::fs::metadata(&files[1]).map(|m| m.len()).unwrap_or(0);
+            if let Ok(mut f) = std::fs::OpenOptions::new().append(true).open(&files[1]) {
+                let _ = f.write_all(&[0x40, 0, 0, 0, 0xAB]);
+            }
+            before = files.iter().map(|p| fingerprint(p)).collect();
+        }
         let r = if Some(t) == child_id { child.as_mut().unwrap().apply(op) } else { apply_local(&mut slots[t], &path, op) };
+        if probe {
+            let after: Vec<(u64, u64)> = files.iter().map(|p| fingerprint(p)).collect();
+            if after != before {
+                touched.push(format!("handle {}: {:?} (result {:?}) changed the files of the live handle: .ndb {:?} -> {:?}, .wal {:?} -> {:?}", t, op, r, before[0], after[0], before[1], after[1]));
+            }
+            // take the simulated partial record away again
+            if let Ok(f) = std::fs::OpenOptions::new().write(true).open(&files[1]) {
+                let _ = f.set_len(wal_len);
+            }
+        }
         match &r {
             Res::OpenOk => is_open[t] = true,
             Res::Closed => is_open[t] = false,
@@ -288,7 +436,7 @@ fn run_case(progs: &[Vec<Op>], sched: &[usize], with_child: bool) -> Outcome {
         Ok(r) => r,
         Err(p) => Err(format!("panic: {}", p)),
     };
-    Outcome { results, open_at_end, max_open, reopen, expected }
+    Outcome { touched, results, open_at_end, max_open, reopen, expected }
 }
 
 fn gen_prog(r: &mut Rng, next_d: &mut i64) -> Vec<Op> {
@@ -330,6 +478,10 @@ fn main() {
     let argv: Vec<String> = std::env::args().collect();
     if argv.len() >= 3 && argv[1] == "--child" {
         child_main(Path::new(&argv[2]));
+        return;
+    }
+    if argv.len() >= 3 && argv[1] == "--hammer" {
+        hammer_main(Path::new(&argv[2]));
         return;
     }
     let a = args();
@@ -424,6 +576,11 @@ fn main() {
             rep.case(idx, input.clone());
         }
         // direct property
+        for m in &o.touched {
+            fails += 1;
+            *hist.entry("refused_request_touched_files".into()).or_insert(0) += 1;
+            rep.fail(idx, None, m, input.clone());
+        }
         if o.max_open > 1 {
             fails += 1;
             rep.fail(idx, None, &format!("{} handles were open on the same database at once", o.max_open), input.clone());
@@ -453,12 +610,26 @@ fn main() {
         idx += 1;
     }
     cw.flush();
+    // ---- stream: a busy holder against open() requests from threads and a child process
+    let (txs, per) = if a.tier == "thorough" { (600, 200) } else { (150, 100) };
+    let rounds = if a.tier == "thorough" { 4 } else { 2 };
+    let mut stream_refused = 0u64;
+    for round in 0..rounds {
+        let (res, refused) = hammer_stream(txs, per);
+        stream_refused += refused;
+        *hist.entry(format!("stream:{}", if res.is_ok() { "ok" } else { "FAILED" })).or_insert(0) += 1;
+        if let Err(e) = res {
+            fails += 1;
+            rep.fail(idx + round, None, &e, json!({"phase": "stream", "transactions": txs, "relationships_per_transaction": per}));
+        }
+    }
     rep.stats(json!({
         "evaluations": idx,
         "distinct_nontrivial": nontrivial.len(),
         "rule": "2-3 handles on one path (half of the generated cases with the last handle in a child process), 2-8 operations each (open/commit/compact/close/offline vacuum, mostly well-formed, some on closed handles, double opens), random interleavings incl. prefixes; corpus witness and all 20 interleavings of two open-commit-close writers; non-trivial = an open was refused or the database changed hands, distinct by (programs, schedule)",
         "histogram": hist,
         "direct_failures": fails,
+        "stream": {"rounds": rounds, "transactions": txs, "relationships_per_transaction": per, "refused_open_requests": stream_refused},
         "case_files": cw.files.iter().map(|p| p.to_string_lossy().to_string()).collect::<Vec<_>>(),
     }));
     rep.finish();
